@@ -174,6 +174,12 @@ class Resources:
         pattern = re.compile(r"^(\d+:)?(\d{2}:)?\d{2}:\d{2}$")
         return bool(pattern.match(time))
 
+    @staticmethod
+    def _wall_time_to_seconds(time: str) -> int:
+        """Duration in seconds of a wall time string ``[[D:]HH:]MM:SS``."""
+        factors = (1, 60, 3600, 86400)
+        return sum(int(p) * f for p, f in zip(reversed(time.split(":")), factors))
+
     def to_slurm_options(self) -> str:
         """Convert the Resources instance to SLURM options.
 
@@ -277,7 +283,11 @@ class Resources:
                 max_data["time"] = (
                     resources.time
                     if max_data["time"] is None
-                    else max(max_data["time"], resources.time)
+                    else max(
+                        max_data["time"],
+                        resources.time,
+                        key=Resources._wall_time_to_seconds,
+                    )
                 )
             if resources.partition is not None:
                 max_data["partition"] = resources.partition
